@@ -33,6 +33,23 @@ fn eval(intrp: &mut Interpreter, src: &str) -> String {
   }
 }
 
+// Address of the storage cell of a value.  `Value::addr()` is `todo!()` for every matrix kind except
+// MatrixIndex, so matrices are handled here; anything else that still panics gets address 0.
+fn value_addr(v: &Value) -> usize {
+  match v {
+    Value::MatrixBool(m) => m.addr(),
+    Value::MatrixU8(m) => m.addr(), Value::MatrixU16(m) => m.addr(), Value::MatrixU32(m) => m.addr(),
+    Value::MatrixU64(m) => m.addr(), Value::MatrixU128(m) => m.addr(),
+    Value::MatrixI8(m) => m.addr(), Value::MatrixI16(m) => m.addr(), Value::MatrixI32(m) => m.addr(),
+    Value::MatrixI64(m) => m.addr(), Value::MatrixI128(m) => m.addr(),
+    Value::MatrixF32(m) => m.addr(), Value::MatrixF64(m) => m.addr(),
+    Value::MatrixString(m) => m.addr(), Value::MatrixR64(m) => m.addr(), Value::MatrixC64(m) => m.addr(),
+    Value::MatrixValue(m) => m.addr(),
+    Value::MutableReference(r) => value_addr(&r.borrow()),
+    _ => catch_unwind(AssertUnwindSafe(|| v.addr())).unwrap_or(0),
+  }
+}
+
 fn dump_symbols(intrp: &Interpreter) -> String {
   let st = intrp.symbols();
   let st = st.borrow();
@@ -42,7 +59,7 @@ fn dump_symbols(intrp: &Interpreter) -> String {
     let name = dict.get(k).cloned().unwrap_or(format!("#{}", k));
     let m = st.mutable_variables.contains_key(k);
     let vb = v.borrow();
-    rows.push((name, m, canon(&vb), vb.addr()));
+    rows.push((name, m, canon(&vb), value_addr(&vb)));
   }
   rows.sort();
   // alias classes: number distinct addresses in order of first appearance (names sorted)
@@ -128,8 +145,31 @@ fn mode_bytecode(j: &J) -> String {
   format!("(bc {} (ok {}) {} {} {} {})", r, bc.len(), load, re, run, qstr(&if want_hex { hex(&bc) } else { String::new() }))
 }
 
+fn instr_sx(i: &DecodedInstr) -> String {
+  match i {
+    DecodedInstr::ConstLoad { dst, const_id } => format!("(cl {} {})", dst, const_id),
+    DecodedInstr::NullOp { fxn_id, dst } => format!("(nul {} {})", fxn_id, dst),
+    DecodedInstr::UnOp { fxn_id, dst, src } => format!("(un {} {} {})", fxn_id, dst, src),
+    DecodedInstr::BinOp { fxn_id, dst, lhs, rhs } => format!("(bin {} {} {} {})", fxn_id, dst, lhs, rhs),
+    DecodedInstr::TernOp { fxn_id, dst, a, b, c } => format!("(tern {} {} {} {} {})", fxn_id, dst, a, b, c),
+    DecodedInstr::QuadOp { fxn_id, dst, a, b, c, d } => format!("(quad {} {} {} {} {} {})", fxn_id, dst, a, b, c, d),
+    DecodedInstr::VarArg { fxn_id, dst, args } => format!("(var {} {} ({}))", fxn_id, dst, args.iter().map(|a| a.to_string()).collect::<Vec<_>>().join(" ")),
+    DecodedInstr::Ret { src } => format!("(ret {})", src),
+    DecodedInstr::Unknown { opcode, rest } => format!("(unknown {} {})", opcode, rest.len()),
+  }
+}
+
+fn header_sx(h: &ByteCodeHeader) -> String {
+  format!("(header {} {} {} {} {} {} {} {} {} {} {} {} {} {} {} {} {} {} {} {} {} {})",
+    u32::from_le_bytes(h.magic), h.version, h.mech_ver, h.flags, h.reg_count, h.instr_count,
+    h.feature_count, h.feature_off, h.types_count, h.types_off, h.const_count, h.const_tbl_off,
+    h.const_tbl_len, h.const_blob_off, h.const_blob_len, h.symbols_len, h.symbols_off,
+    h.instr_off, h.instr_len, h.dict_off, h.dict_len, h.reserved)
+}
+
 fn mode_loader(j: &J) -> String {
   let bytes = unhex(j["hex"].as_str().unwrap_or(""));
+  if j.get("crc").is_some() { return format!("(crc {})", crc32fast::hash(&bytes)); }
   let pp = match catch_unwind(|| ParsedProgram::from_bytes(&bytes)) {
     Ok(Ok(p)) => p,
     Ok(Err(e)) => return format!("(load {})", errs(&e)),
@@ -145,11 +185,14 @@ fn mode_loader(j: &J) -> String {
     Ok(Err(e)) => errs(&e),
     Err(_) => "(panic reencode)".to_string(),
   };
-  format!("(load (ok) {} {})", dec, re)
+  let consts: Vec<String> = pp.const_entries.iter().map(|c| format!("({} {} {} {} {} {} {})", c.type_id, c.enc, c.align, c.flags, c.reserved, c.offset, c.length)).collect();
+  let instrs: Vec<String> = pp.instrs.iter().map(instr_sx).collect();
+  format!("(load (ok) {} (consts {}) (instrs {}) {} {} (nsyms {}) (ndict {}))", header_sx(&pp.header), consts.join(" "), instrs.join(" "), dec, re, pp.symbols.len(), pp.dictionary.len())
 }
 
 fn main() {
-  std::panic::set_hook(Box::new(|_| {}));
+  if std::env::var("MVH_PANIC").is_err() { std::panic::set_hook(Box::new(|_| {})); }
+  else { std::panic::set_hook(Box::new(|i| { eprintln!("PANIC {}", i); })); }
   let mode = std::env::args().nth(1).unwrap_or("prog".to_string());
   let stdin = std::io::stdin();
   let stdout = std::io::stdout();
